@@ -28,6 +28,10 @@ DIMS = [(2, 2), (2, 3), (3, 3), (2, 4)]
 # residual allowed for quantities that come out of the LP solver (CLARABEL via cvxpy): observed |sum(lambda)-1| up to 3.5e-6 and
 # LP-point deviation up to 1.3e-6 over ~150 solves with the short iteration counts used here; a modelling error is O(1e-1)
 LP_TOL = 5e-5
+# residual allowed for the SDP boundary lengths: the installed solver's error, measured on quantities whose exact value is known
+# (beta_1ext = beta_DM, beta_1ext+PPT = beta_PPT), has median 1e-7 but a tail up to 1.8e-5 (~400 solves, dims (2,2),(2,3),(3,3)); the 1e-5
+# of the design gave false alarms on the unchanged tree (quick seed 2, thorough seeds 2,4,5).  A nesting bug is O(1e-2).
+SDP_TOL = 2e-4
 
 
 def fbits(x):
@@ -595,10 +599,10 @@ def probe_cha_alive(ctx):
 
 
 def probe_ordering(ctx):
-    """ordering of the computed boundary lengths, solver tolerance 1e-5"""
+    """ordering of the computed boundary lengths, solver tolerance SDP_TOL (the solver error measured in this run is recorded)"""
     import numqi
     rng = np.random.default_rng(ctx.np_seed + 12)
-    tol = 1e-5
+    tol = SDP_TOL
     cfg = [((2, 2), 3, 3)] if ctx.quick() else [((2, 2), 3, 8), ((2, 3), 2, 4), ((3, 3), 2, 2)]
     for (dA, dB), kmax, reps in cfg:
         N = dA * dB
@@ -617,6 +621,7 @@ def probe_ordering(ctx):
             except Exception as e:
                 ctx.count('sdp-raised-' + type(e).__name__); continue
             bad = []
+            ctx.extra['sdp_measured_error_max'] = max(ctx.extra.get('sdp_measured_error_max', 0.0), abs(ext[1] - bdm), abs(extp[1] - bppt))
             if abs(ext[1] - bdm) > tol:
                 bad.append(f'beta_1ext={ext[1]!r} != beta_DM={bdm!r}')
             for k in range(1, kmax):
